@@ -8,7 +8,16 @@
 //!                parse of the same token list.  Oracle: min-print and full-print give the same real
 //!                AST and it equals the generated tree.
 //!   stmt.*       the same text inside `SELECT * FROM t WHERE <expr>` through the real statement
-//!                parser (its own copy of the Pratt loop, no depth counter) vs `parse_nolimit`.
+//!                parser (its own copy of the Pratt loop; since /repo 59c7cb56 with the same
+//!                MAX_DEPTH = 64 counter) vs the same model op `parse`.  A start-up probe checks that
+//!                the limit is there (`stmt.depth_limit_probe`); if it is not, that is a
+//!                correspondence failure, never a silent switch to the pre-fix model.
+//!   select.*     the SELECT skeleton (`* [FROM t | FROM ( SELECT … )] [WHERE EXISTS ( SELECT … )]`) through
+//!                the real `parse` vs the model op `sel` (Parse/Select.lean): both counters of the
+//!                statement parser (`select_depth`, `depth`), chains of 58..70 bodies, truncations,
+//!                mutants, soups; inputs that leave the fragment (`outside`) are counted, not compared.
+//!   known.*      directed reproduction of the listed KNOWN finding and directed regression inputs of
+//!                the two FIXED ones, before any random stream.
 //!   soup         random token lists over the model alphabet (mostly ill-formed): Ok/Err, error kind
 //!                and error token index compared.
 //!   boundary     prefix / paren / right-nesting chains of 60..70 levels around MAX_DEPTH.
@@ -409,19 +418,45 @@ fn real_parse_expr(rd: &Rendered) -> String {
 
 const STMT_PREFIX: &str = "SELECT * FROM t WHERE ";
 
-/// Which model describes the statement parser's Pratt copy: `parse_nolimit` (no depth counter, the
-/// code as it is today) or `parse` (MAX_DEPTH = 64, once the proposed fix is applied). Probed on the
-/// real parser at start-up so that the correspondence stays exact in both worlds; the stack-overflow
-/// oracle of the adversarial stream does not depend on it.
-static STMT_MODEL_OP: std::sync::OnceLock<&'static str> = std::sync::OnceLock::new();
+/// The statement parser's Pratt copy has the same depth counter as ExprParser (/repo 59c7cb56), so
+/// the model op is `parse` for both.  `parse_nolimit` (the pre-fix code) is asked only by the
+/// start-up probe, to show that the probe inputs do distinguish the two.
+const STMT_MODEL_OP: &str = "parse";
 fn stmt_model_op() -> &'static str {
-    STMT_MODEL_OP.get_or_init(|| {
-        let probe = format!("{STMT_PREFIX}{}1", "- ".repeat(70));
-        match np::parse(&probe) {
-            Err(e) if matches!(e.kind, ParseErrorKind::TooDeep) => "parse",
-            _ => "parse_nolimit",
+    STMT_MODEL_OP
+}
+
+/// Start-up probe: nesting chains around the limit through the real statement parser against the
+/// model op `parse`.  Before the fix the real parser accepted them (model op `parse_nolimit`); a
+/// parser without the limit therefore shows up here as correspondence disagreements.
+fn probe_stmt_depth_limit(m: &mut Model, rep: &mut Report, rng: &Rng) {
+    let mut r = rng.fork("probe");
+    let atoms = vec!["1".to_string()];
+    let atom_sx = vec![np::parse_expr("1").map(|e| sx(&e)).unwrap_or_default()];
+    for (name, opener, closer) in [("neg", "sub", ""), ("not", "not", ""), ("paren", "(", ")"), ("tilde", "tilde", "")] {
+        for n in [63usize, 64, 70, 200] {
+            let mut words: Vec<String> = (0..n).map(|_| opener.to_string()).collect();
+            words.push("a0".into());
+            if !closer.is_empty() {
+                words.extend((0..n).map(|_| closer.to_string()));
+            }
+            let rd = render(&words, &atoms, &mut r, false);
+            let imp = real_parse_where(&rd);
+            let line = words.join(" ");
+            let model = expand(&m.ask(&format!("parse {line}")), &atom_sx);
+            let old = expand(&m.ask(&format!("parse_nolimit {line}")), &atom_sx);
+            rep.case("stmt.depth_limit_probe", Some(&format!("{name}{n}")));
+            rep.compare(
+                "stmt.depth_limit_probe",
+                || json!({"text_head": &rd.text[..rd.text.len().min(80)], "construct": name, "levels": n,
+                          "pre_fix_model_answer": &old[..old.len().min(60)]}),
+                &imp,
+                &model,
+            );
+            rep.hit(if model == old { "probe.below_limit" } else { "probe.distinguishes_prefix_code" });
+            rep.hit(&format!("probe.real.{}", imp.split(' ').take(2).collect::<Vec<_>>().join("_")));
         }
-    })
+    }
 }
 
 /// WHERE clause of `SELECT * FROM t WHERE <text>` through the statement parser.
@@ -566,7 +601,7 @@ fn tree_case(m: &mut Model, rep: &mut Report, r: &mut Rng, t: &T, natoms: usize,
                 json!({"text": rd.text, "tree": pol}),
             );
         }
-        if (stmt_model_op() == "parse_nolimit" || frames_mode <= 64) && simp != expected {
+        if frames_mode <= 64 && simp != expected {
             viol_once(rep, 
                 "neumann_parser::parse/precedence",
                 &format!("statement parser: {mode}-parenthesised print does not parse back to the tree: got {simp}, want {expected}"),
@@ -661,10 +696,13 @@ fn soup_case(m: &mut Model, rep: &mut Report, r: &mut Rng, words: Vec<String>, s
             }
         }
     }
-    // statement parser on the same tokens: compared only when the model accepts (a statement ignores
-    // trailing tokens and continues with GROUP BY…, so its error behaviour is not the expression core's)
+    // statement parser on the same tokens: compared when the model accepts or answers TooDeep (the
+    // depth counter aborts the whole statement at the same token); other errors are not compared: a
+    // statement ignores trailing tokens and continues with GROUP BY…, so that part of its error
+    // behaviour is not the expression core's
     let smodel = expand(&m.ask(&format!("{} {}", stmt_model_op(), words.join(" "))), &atom_sx);
-    if smodel.starts_with("ok") {
+    if smodel.starts_with("ok") || smodel.starts_with("err too_deep") {
+        rep.hit(if smodel.starts_with("ok") { "stmt.soup.ok" } else { "stmt.soup.too_deep" });
         let simp = real_parse_where(&rd);
         let s2 = format!("{stream}.stmt");
         rep.case(&s2, None);
@@ -1813,6 +1851,506 @@ fn stream_exec(rep: &mut Report, rng: &Rng, thorough: bool) {
     }
 }
 
+
+// ------------------------------------------------------------------ SELECT skeleton (select_depth)
+//
+// stream `select`: the SELECT skeleton  body ::= * [FROM t<n> | FROM ( SELECT body )] [WHERE EXISTS ( SELECT body )]
+// through the REAL `np::parse` vs the model op `sel` (Parse/Select.lean).  Both counters of the
+// statement parser are exercised: `select_depth` (MAX_SELECT_DEPTH = 64) directly, `depth`
+// (MAX_DEPTH = 64) through the select item / WHERE frames.
+//   select.tree      random skeleton trees (sdepth 1..8), exact print
+//   select.mutant    the same prints with one token replaced / inserted / deleted / the tail cut
+//   select.soup      random token lists over the skeleton alphabet
+//   select.trunc     every prefix of the print of depth-3 trees (eof / unexpected arms)
+//   select.chain     linear chains of 58..70 bodies in all site mixtures, closed and open
+// Cases the model answers `outside` (input leaves the fragment) are counted under
+// `select.outside` and not compared (the real parser must still not panic on them).
+// Expected distribution keys (add to rep.expected_branches in main):
+//   select.result.ok  select.result.err_too_deep  select.result.err_eof_expression
+//   select.result.err_eof_identifier  select.result.err_eof_SELECT  select.result.err_eof_lparen
+//   select.result.err_eof_rparen  select.result.err_unexpected_expression
+//   select.result.err_unexpected_identifier  select.result.err_unexpected_SELECT
+//   select.result.err_unexpected_lparen  select.result.err_unexpected_rparen  select.outside
+//   select.chain.closed.ok  select.chain.closed.too_deep
+
+#[derive(Clone, Debug)]
+enum SelQ {
+    Leaf(Option<usize>),
+    FromSub(Box<SelQ>),
+    WhereSub(Option<usize>, Box<SelQ>),
+    Both(Box<SelQ>, Box<SelQ>),
+}
+
+impl SelQ {
+    fn gen(r: &mut Rng, depth: usize) -> SelQ {
+        let src = |r: &mut Rng| if r.chance(1, 2) { Some(r.below(10) as usize) } else { None };
+        if depth <= 1 {
+            return SelQ::Leaf(src(r));
+        }
+        match r.below(8) {
+            0 => SelQ::Leaf(src(r)),
+            1 | 2 => SelQ::FromSub(Box::new(SelQ::gen(r, depth - 1))),
+            3 | 4 => {
+                let o = src(r);
+                SelQ::WhereSub(o, Box::new(SelQ::gen(r, depth - 1)))
+            }
+            _ => {
+                // one side reaches the full depth, the other is random
+                let a = SelQ::gen(r, depth - 1);
+                let d2 = 1 + r.below(depth as u64 - 1) as usize;
+                let b = SelQ::gen(r, d2);
+                if r.chance(1, 2) { SelQ::Both(Box::new(a), Box::new(b)) } else { SelQ::Both(Box::new(b), Box::new(a)) }
+            }
+        }
+    }
+    fn sdepth(&self) -> usize {
+        match self {
+            SelQ::Leaf(_) => 1,
+            SelQ::FromSub(s) => 1 + s.sdepth(),
+            SelQ::WhereSub(_, w) => 1 + w.sdepth(),
+            SelQ::Both(s, w) => 1 + s.sdepth().max(w.sdepth()),
+        }
+    }
+    /// model token words of the body (without the leading `select`) — the harness's own printer
+    fn print(&self, out: &mut Vec<String>) {
+        let src = |o: &Option<usize>, out: &mut Vec<String>| {
+            if let Some(n) = o {
+                out.push("from".into());
+                out.push(format!("t{n}"));
+            }
+        };
+        let open_from = |out: &mut Vec<String>| {
+            for w in ["from", "(", "select"] {
+                out.push(w.into());
+            }
+        };
+        let open_where = |out: &mut Vec<String>| {
+            for w in ["where", "exists", "(", "select"] {
+                out.push(w.into());
+            }
+        };
+        out.push("*".into());
+        match self {
+            SelQ::Leaf(o) => src(o, out),
+            SelQ::FromSub(s) => {
+                open_from(out);
+                s.print(out);
+                out.push(")".into());
+            }
+            SelQ::WhereSub(o, w) => {
+                src(o, out);
+                open_where(out);
+                w.print(out);
+                out.push(")".into());
+            }
+            SelQ::Both(s, w) => {
+                open_from(out);
+                s.print(out);
+                out.push(")".into());
+                open_where(out);
+                w.print(out);
+                out.push(")".into());
+            }
+        }
+    }
+    /// the answer syntax of the driver's `showQ`
+    fn sexp(&self) -> String {
+        let so = |o: &Option<usize>| o.map_or("-".to_string(), |n| format!("t{n}"));
+        match self {
+            SelQ::Leaf(o) => format!("(q {} -)", so(o)),
+            SelQ::FromSub(s) => format!("(q {} -)", s.sexp()),
+            SelQ::WhereSub(o, w) => format!("(q {} {})", so(o), w.sexp()),
+            SelQ::Both(s, w) => format!("(q {} {})", s.sexp(), w.sexp()),
+        }
+    }
+}
+
+/// skeleton token words -> SQL text with the token-start table
+fn sel_render(words: &[String], r: &mut Rng, fancy: bool) -> Rendered {
+    let mut text = String::new();
+    let mut starts = Vec::new();
+    if fancy && r.chance(1, 8) {
+        text.push_str(sep(r, true));
+    }
+    for (i, w) in words.iter().enumerate() {
+        if i > 0 {
+            text.push_str(sep(r, fancy));
+        }
+        starts.push(text.len());
+        let t: String = match w.as_str() {
+            "select" => (*r.pick(&["SELECT", "select", "Select"])).into(),
+            "from" => (*r.pick(&["FROM", "from"])).into(),
+            "where" => (*r.pick(&["WHERE", "where"])).into(),
+            "exists" => (*r.pick(&["EXISTS", "exists"])).into(),
+            "other" => (*r.pick(&[";", "]", "}", ":", "THEN", "BY"])).into(),
+            "*" | "(" | ")" => w.clone(),
+            _ => w.clone(), // t<n>
+        };
+        text.push_str(&t);
+    }
+    Rendered { text, starts }
+}
+
+/// canonical form of a real `SelectStmt` that lies in the skeleton; `None` when it does not
+fn sel_sx(s: &np::SelectStmt) -> Option<String> {
+    if s.distinct || s.columns.len() != 1 || !s.group_by.is_empty() || s.having.is_some()
+        || !s.order_by.is_empty() || s.limit.is_some() || s.offset.is_some()
+    {
+        return None;
+    }
+    let it = &s.columns[0];
+    if it.alias.is_some() || !matches!(it.expr.kind, ExprKind::Wildcard) {
+        return None;
+    }
+    let src = match &s.from {
+        None => "-".to_string(),
+        Some(fc) => {
+            if !fc.joins.is_empty() || fc.table.alias.is_some() {
+                return None;
+            }
+            match &fc.table.kind {
+                np::TableRefKind::Table(id) => id.name.clone(),
+                np::TableRefKind::Subquery(b) => sel_sx(b)?,
+            }
+        }
+    };
+    let whr = match &s.where_clause {
+        None => "-".to_string(),
+        Some(e) => match &e.kind {
+            ExprKind::Exists(b) => sel_sx(b)?,
+            _ => return None,
+        },
+    };
+    Some(format!("(q {src} {whr})"))
+}
+
+fn real_parse_select(rd: &Rendered) -> String {
+    let text = rd.text.clone();
+    match guarded(move || np::parse(&text)) {
+        Ok(Ok(st)) => match &st.kind {
+            StatementKind::Select(s) => match sel_sx(s) {
+                Some(x) => format!("ok {x}"),
+                None => "ok <non-skeleton>".into(),
+            },
+            _ => "ok <not-select>".into(),
+        },
+        Ok(Err(e)) => canon_err(&e, rd),
+        Err(p) => format!("panic {p}"),
+    }
+}
+
+/// one correspondence case; returns (impl answer, model answer)
+fn select_case(m: &mut Model, rep: &mut Report, r: &mut Rng, words: &[String], stream: &str, nontrivial: bool) -> (String, String) {
+    let fancy = r.chance(1, 5);
+    let rd = sel_render(words, r, fancy);
+    let imp = real_parse_select(&rd);
+    let model = m.ask(&format!("sel {}", words.join(" ")));
+    let key = rd.text.clone();
+    rep.case(stream, if nontrivial { Some(&key) } else { None });
+    if imp.starts_with("panic") {
+        viol_once(rep, "neumann_parser::parse/panic", &format!("statement parser panicked: {imp}"), json!({"text": rd.text}));
+    }
+    if model == "outside" {
+        rep.hit("select.outside");
+        // what the real parser made of an input that leaves the fragment (distribution only)
+        rep.hit(if imp.starts_with("ok") { "select.outside.real_ok" } else { "select.outside.real_err" });
+        return (imp, model);
+    }
+    rep.compare(stream, || json!({"text": rd.text, "tokens": words.join(" ")}), &imp, &model);
+    let tag = if imp.starts_with("ok") {
+        "ok".to_string()
+    } else {
+        imp.split(' ')
+            .take(3)
+            .enumerate()
+            .filter(|(i, w)| *i < 2 || !w.chars().all(|c| c.is_ascii_digit()))
+            .map(|(_, w)| w)
+            .collect::<Vec<_>>()
+            .join("_")
+            .replace('(', "lparen")
+            .replace(')', "rparen")
+    };
+    rep.hit(&format!("select.result.{tag}"));
+    if rep.samples.len() < 10 && words.len() > 8 && (imp.starts_with("err") || r.chance(1, 50)) {
+        rep.sample(json!({"stream": stream, "text": rd.text, "real": imp, "model": model}));
+    }
+    (imp, model)
+}
+
+const SEL_ALPHABET: &[&str] = &["select", "*", "from", "(", ")", "t1", "t2", "where", "exists", "other"];
+
+fn stream_select(m: &mut Model, rep: &mut Report, rng: &Rng, thorough: bool) {
+    let mut r = rng.fork("select");
+    let stmt_words = |q: &SelQ| {
+        let mut w: Vec<String> = vec!["select".into()];
+        q.print(&mut w);
+        w
+    };
+
+    // (a) random skeleton trees, exact print, and one-token mutants of the print
+    let n_trees = if thorough { 20000 } else { 2500 };
+    for _ in 0..n_trees {
+        let d = 1 + r.below(8) as usize;
+        let q = SelQ::gen(&mut r, d);
+        let words = stmt_words(&q);
+        rep.hit(&format!("select.tree.sdepth.{}", q.sdepth()));
+        let (imp, model) = select_case(m, rep, &mut r, &words, "select.tree", q.sdepth() >= 2);
+        // oracle on the implementation alone: the print of a skeleton of depth ≤ 64 parses to itself
+        let want = format!("ok {}", q.sexp());
+        if imp != want {
+            viol_once(rep, "neumann_parser::Parser::parse_select_body/round_trip",
+                &format!("skeleton text does not parse back to its tree: {imp} (model {model})"),
+                json!({"tokens": words.join(" "), "expected": want}));
+        }
+        // mutants
+        for _ in 0..2 {
+            let mut w = words.clone();
+            let i = r.below(w.len() as u64) as usize;
+            match r.below(4) {
+                0 => w[i] = (*r.pick(SEL_ALPHABET)).to_string(),
+                1 => w.insert(i, (*r.pick(SEL_ALPHABET)).to_string()),
+                2 => {
+                    w.remove(i);
+                }
+                _ => {
+                    w.truncate(i);
+                    if r.chance(1, 2) {
+                        w.push((*r.pick(SEL_ALPHABET)).to_string());
+                    }
+                }
+            }
+            select_case(m, rep, &mut r, &w, "select.mutant", w.len() >= 4);
+        }
+    }
+
+    // (b) token soup over the skeleton alphabet (mostly ill-formed), biased to start with `select *`
+    let n_soup = if thorough { 40000 } else { 5000 };
+    for _ in 0..n_soup {
+        let len = r.below(12) as usize;
+        let mut w: Vec<String> = Vec::new();
+        if r.chance(7, 8) {
+            w.push("select".into());
+        }
+        if r.chance(3, 4) {
+            w.push("*".into());
+        }
+        for _ in 0..len {
+            // follow the grammar most of the time so that deep states are reached
+            let last = w.last().map(|s| s.as_str()).unwrap_or("");
+            let follow: &[&str] = match last {
+                "select" => &["*"],
+                "*" => &["from", "where", ")"],
+                "from" => &["(", "t1", "t2"],
+                "(" => &["select"],
+                "where" => &["exists"],
+                "exists" => &["("],
+                ")" => &[")", "where"],
+                _ => &["where", ")"],
+            };
+            let t = if r.chance(4, 5) { *r.pick(follow) } else { *r.pick(SEL_ALPHABET) };
+            w.push(t.to_string());
+        }
+        select_case(m, rep, &mut r, &w, "select.soup", w.len() >= 4);
+    }
+
+    // (c) every prefix of the print of depth-3 trees (and each prefix followed by `other`)
+    let n_trunc = if thorough { 200 } else { 30 };
+    for _ in 0..n_trunc {
+        let q = loop {
+            let q = SelQ::gen(&mut r, 3);
+            if q.sdepth() == 3 {
+                break q;
+            }
+        };
+        let words = stmt_words(&q);
+        for k in 0..=words.len() {
+            let w: Vec<String> = words[..k].to_vec();
+            select_case(m, rep, &mut r, &w, "select.trunc", k >= 3);
+            let mut w2 = w.clone();
+            w2.push("other".into());
+            select_case(m, rep, &mut r, &w2, "select.trunc", k >= 3);
+        }
+    }
+
+    // (d) linear chains of 58..70 bodies around MAX_SELECT_DEPTH, all site mixtures
+    //     site 0 = FROM ( SELECT, 1 = WHERE EXISTS ( SELECT, 2 = FROM t<n> WHERE EXISTS ( SELECT
+    let mixes = if thorough { 12 } else { 4 };
+    for bodies in 58..=70usize {
+        for kind in 0..(3 + mixes) {
+            let sites: Vec<u64> = (0..bodies - 1)
+                .map(|_| if kind < 3 { kind as u64 } else { r.below(3) })
+                .collect();
+            // build the tree inside-out
+            let mut q = SelQ::Leaf(if r.chance(1, 2) { Some(0) } else { None });
+            for s in sites.iter().rev() {
+                q = match s {
+                    0 => SelQ::FromSub(Box::new(q)),
+                    1 => SelQ::WhereSub(None, Box::new(q)),
+                    _ => SelQ::WhereSub(Some(r.below(10) as usize), Box::new(q)),
+                };
+            }
+            let words = stmt_words(&q);
+            rep.hit(&format!("select.chain.kind.{}", kind.min(3)));
+            let (imp, _model) = select_case(m, rep, &mut r, &words, "select.chain", true);
+            // impl-level oracle: a closed chain of k ≤ 64 bodies parses (to itself), k > 64 is TooDeep
+            if bodies <= 64 {
+                rep.hit("select.chain.closed.ok");
+                if imp != format!("ok {}", q.sexp()) {
+                    rep.violation("neumann_parser::Parser::parse_select_body/depth_limit",
+                        &format!("a closed chain of {bodies} SELECT bodies (≤ MAX_SELECT_DEPTH) must parse to itself, got: {}", &imp[..imp.len().min(80)]),
+                        json!({"bodies": bodies, "sites": sites, "tokens": words.join(" ")}));
+                }
+            } else {
+                rep.hit("select.chain.closed.too_deep");
+                if !imp.starts_with("err too_deep") {
+                    rep.violation("neumann_parser::Parser::parse_select_body/depth_limit",
+                        &format!("a closed chain of {bodies} SELECT bodies (> MAX_SELECT_DEPTH) must answer TooDeep, got: {}", &imp[..imp.len().min(80)]),
+                        json!({"bodies": bodies, "sites": sites, "tokens": words.join(" ")}));
+                }
+            }
+            // open chains: the openers only, followed by nothing / `*` / a random token
+            let mut open: Vec<String> = Vec::new();
+            let mut closers = 0usize;
+            for w in words.iter() {
+                if w == ")" {
+                    closers += 1;
+                }
+            }
+            // cut before the innermost body: drop the innermost print and all closers
+            let inner_len = words.len() - closers;
+            for w in words[..inner_len].iter() {
+                open.push(w.clone());
+            }
+            // `open` ends with the innermost body's tokens (`*` [from t0]); remove them
+            while let Some(l) = open.last() {
+                if l == "select" {
+                    break;
+                }
+                open.pop();
+            }
+            for tail in 0..3 {
+                let mut w = open.clone();
+                match tail {
+                    0 => {}
+                    1 => w.push("*".into()),
+                    _ => w.push((*r.pick(SEL_ALPHABET)).to_string()),
+                }
+                select_case(m, rep, &mut r, &w, "select.chain", true);
+            }
+        }
+    }
+    rep.note("select.*: SELECT skeleton `* [FROM t|( SELECT … )] [WHERE EXISTS ( SELECT … )]` through the real np::parse vs model op `sel`; inputs the model answers `outside` (aliases, binary `*`, non-EXISTS conditions, non-SELECT statements) are counted under select.outside and not compared");
+}
+
+// ------------------------------------------------------------------ directed: known finding, fixed findings
+
+/// Runs before every random stream.
+///  * KNOWN `query_router::QueryRouter::execute_parsed/negative_number_rejected`: reproduced on the two
+///    inputs of known_findings.jsonl (reported through rep.violation under exactly that class).
+///  * FIXED (regression, must find nothing): the AND/OR precedence input of c2eb0014 through the
+///    legacy string route, and the 3000-parenthesis input of 59c7cb56 (in-process: it now answers
+///    TooDeep after 64 frames; the small-stack child-process oracle of adv.deep repeats it).
+fn directed_known(rep: &mut Report) {
+    use query_router::QueryRouter;
+    // --- known: negative numbers
+    let a = QueryRouter::new();
+    let b = QueryRouter::new();
+    let mut reproduced = 0;
+    {
+        let text = "EMBED STORE 'k1' [-2.5, 3.0, -0.25]";
+        rep.case("known.negative_number", Some(text));
+        let got = a.execute_parsed(text);
+        let want = b.vector().store_embedding("k1", vec![-2.5, 3.0, -0.25]);
+        let parses = np::parse(text).is_ok();
+        if parses && got.is_err() && want.is_ok() {
+            reproduced += 1;
+            rep.violation(
+                "query_router::QueryRouter::execute_parsed/negative_number_rejected",
+                &format!("directed: `{text}` parses (`-x` = Unary(Neg, x)) but execute_parsed returns {} while VectorEngine::store_embedding with the same vector succeeds", canon_qr(&got)),
+                json!({"text": text}),
+            );
+        } else {
+            rep.observe(json!({"known_finding_not_reproduced": text, "parses": parses, "execute_parsed": canon_qr(&got), "direct_ok": want.is_ok()}));
+        }
+    }
+    {
+        let text = "NODE CREATE person {age: -31}";
+        rep.case("known.negative_number", Some(text));
+        let got = a.execute_parsed(text);
+        let mut props = std::collections::HashMap::new();
+        props.insert("age".to_string(), graph_engine::PropertyValue::Int(-31));
+        let want = b.graph().create_node("person", props);
+        let parses = np::parse(text).is_ok();
+        if parses && got.is_err() && want.is_ok() {
+            reproduced += 1;
+            rep.violation(
+                "query_router::QueryRouter::execute_parsed/negative_number_rejected",
+                &format!("directed: `{text}` parses but execute_parsed returns {} while GraphEngine::create_node with age = -31 succeeds", canon_qr(&got)),
+                json!({"text": text}),
+            );
+        } else {
+            rep.observe(json!({"known_finding_not_reproduced": text, "parses": parses, "execute_parsed": canon_qr(&got), "direct_ok": want.is_ok()}));
+        }
+    }
+    if reproduced > 0 {
+        rep.hit_n("known.negative_number.reproduced", reproduced);
+    }
+    // --- fixed c2eb0014: AND binds tighter than OR in the legacy string parser too
+    {
+        let q = twin();
+        let text = "SELECT * FROM t WHERE c != 0 OR b > 0 AND name = 'y'";
+        rep.case("known.regression.and_or_precedence", Some(text));
+        let want = match q.relational().select(
+            "t",
+            Condition::Ne("c".into(), RV::Int(0)).or(Condition::Gt("b".into(), RV::Int(0)).and(Condition::Eq("name".into(), RV::String("y".into())))),
+        ) {
+            Ok(rows) => canon_rows(&rows),
+            Err(e) => format!("error {e:?}"),
+        };
+        let legacy = canon_qr(&q.execute(text));
+        let parsed = canon_qr(&q.execute_parsed(text));
+        rep.hit(if legacy == want { "known.regression.and_or_precedence.legacy_agrees" } else { "known.regression.and_or_precedence.legacy_differs" });
+        if legacy != want {
+            rep.violation(
+                "query_router::QueryRouter::parse_condition/and_or_precedence",
+                &format!("directed regression: execute(text) returns {} but the documented grouping a OR (b AND c) returns {}", &legacy[..legacy.len().min(60)], &want[..want.len().min(60)]),
+                json!({"text": text}),
+            );
+        }
+        if parsed != want {
+            rep.violation(
+                "query_router::QueryRouter::execute_parsed/select_differs_from_direct_call",
+                &format!("directed regression: execute_parsed(text) returns {} but the direct call returns {}", &parsed[..parsed.len().min(60)], &want[..want.len().min(60)]),
+                json!({"text": text}),
+            );
+        }
+    }
+    // --- fixed 59c7cb56: deep nesting in a statement answers TooDeep (run on a big stack here so that a
+    //     parser without the limit cannot take the harness down; the 2 MiB oracle is adv.deep)
+    for (name, text) in [
+        ("paren3000", format!("SELECT {}1{} FROM t", "(".repeat(3000), ")".repeat(3000))),
+        ("from_subquery3000", format!("{}SELECT 1{}", "SELECT * FROM (".repeat(3000), ") s".repeat(3000))),
+        ("exists_subquery3000", format!("{}SELECT 1{}", "SELECT * FROM t WHERE EXISTS (".repeat(3000), ")".repeat(3000))),
+    ] {
+        rep.case("known.regression.deep_nesting", Some(name));
+        let t2 = text.clone();
+        let h = std::thread::Builder::new().stack_size(512 << 20).spawn(move || match np::parse(&t2) {
+            Ok(_) => "ok".to_string(),
+            Err(e) => kind_tag(&e.kind).to_string(),
+        });
+        let out = h.ok().and_then(|j| j.join().ok()).unwrap_or_else(|| "panic".into());
+        rep.hit(&format!("known.regression.deep_nesting.{name}.{out}"));
+        if out != "TooDeep" {
+            let site = if name.starts_with("paren") { "parse_expr_bp" } else { "parse_select_body" };
+            rep.violation(
+                &format!("neumann_parser::Parser::{site}/depth_limit"),
+                &format!("directed regression: 3000 nested levels ({name}) answered `{out}` instead of TooDeep: the statement parser's recursion is unbounded again"),
+                json!({"construct": name, "levels": 3000}),
+            );
+        }
+    }
+}
+
 // ------------------------------------------------------------------ main
 
 fn main() {
@@ -1840,14 +2378,28 @@ fn main() {
     ] {
         rep.expected_branches.push(k.to_string());
     }
-    rep.note(&format!("statement parser's expression loop corresponds to model op `{}` (probed: 70 nested prefix operators {})", stmt_model_op(), if stmt_model_op() == "parse" { "answer TooDeep" } else { "are accepted: no depth limit" }));
-    rep.hit(&format!("stmt_parser.model.{}", stmt_model_op()));
+    rep.note("statement parser's expression loop corresponds to model op `parse` (MAX_DEPTH = 64, /repo 59c7cb56); the start-up probe stmt.depth_limit_probe compares 63/64/70/200-level chains and fails the correspondence if the limit is missing");
+    for k in [
+        "select.result.ok", "select.result.err_too_deep", "select.result.err_eof_expression", "select.result.err_eof_identifier",
+        "select.result.err_eof_SELECT", "select.result.err_eof_lparen", "select.result.err_eof_rparen",
+        "select.result.err_unexpected_expression", "select.result.err_unexpected_identifier", "select.result.err_unexpected_SELECT",
+        "select.result.err_unexpected_lparen", "select.result.err_unexpected_rparen", "select.outside",
+        "select.chain.closed.ok", "select.chain.closed.too_deep",
+    ] {
+        rep.expected_branches.push(k.to_string());
+    }
+    for k in ["probe.below_limit", "probe.distinguishes_prefix_code", "probe.real.err_too_deep", "stmt.soup.too_deep", "known.negative_number.reproduced"] {
+        rep.expected_branches.push(k.to_string());
+    }
+    directed_known(&mut rep);
+    probe_stmt_depth_limit(&mut m, &mut rep, &rng);
     stream_trees(&mut m, &mut rep, &rng, args.thorough);
     stream_soup(&mut m, &mut rep, &rng, args.thorough);
     stream_boundary(&mut m, &mut rep, &rng);
+    stream_select(&mut m, &mut rep, &rng, args.thorough);
     stream_adversarial(&mut rep, &rng, args.thorough);
     stream_exec(&mut rep, &rng, args.thorough);
     rep.note("postfix/special forms (IS NULL, IN, BETWEEN, LIKE, calls, CASE, arrays, tuples, qualified names) are opaque atoms of the model; their inner structure is compared only through the real parser's own AST of the atom text");
-    rep.note("statement-parser error behaviour (trailing tokens are not rejected by parse()) is outside the expression-core model; stmt.* streams compare accepted expressions only");
+    rep.note("statement-parser error behaviour (trailing tokens are not rejected by parse()) is outside the expression-core model; stmt.* streams compare accepted expressions and TooDeep answers only");
     rep.write(&args.out);
 }
